@@ -668,6 +668,7 @@ func raceBodies(reps int) {
 			i := callIndex(w, "Equal(deep3k,deep3k) [nesting 3000: several at once exceed any process-wide depth budget]")
 			return []int{i, i, i, i, i, i}
 		}(), false},
+		scenario{"CreateMergePatch on arrays with several non-object elements x 2", []int{callIndex(w, "CreateMergePatch(arrBad,arrBad) [three elements that are not objects]"), callIndex(w, "CreateMergePatch(arrBad,arrBad) [three elements that are not objects]")}, false},
 		scenario{"legacy Apply | legacy Apply | legacy MergePatch", []int{callIndex(w, "legacy Lp.Apply(docObj)"), callIndex(w, "legacy Lp.Apply(docObj)"), callIndex(w, "legacy MergePatch(docObj,mp1)")}, false})
 	mism := 0
 	runs := 0
